@@ -318,8 +318,9 @@ Definition add_system fc x := {| fc_components := fc_components fc; fc_enums := 
   fc_filenames := fc_filenames fc; fc_foreigns := fc_foreigns fc; fc_imports := fc_imports fc; fc_interfaces := fc_interfaces fc;
   fc_subints := fc_subints fc; fc_systems := fc_systems fc ++ [x] |}.
 
-(* fuel bounds the namespace nesting; process supplies S (jdepth ast), which always suffices *)
-Fixpoint parse_element (fuel : nat) (parent : nstree) (fc : file_contents) (j : json) : result file_contents :=
+(* one element; `rec` parses the elements nested in a namespace *)
+Definition parse_element_with (rec : nstree -> file_contents -> json -> result file_contents)
+           (parent : nstree) (fc : file_contents) (j : json) : result file_contents :=
   match j with
   | JObj _ =>
     do cls <- get_class_value j;
@@ -334,15 +335,18 @@ Fixpoint parse_element (fuel : nat) (parent : nstree) (fc : file_contents) (j : 
       Ok (add_subints (add_enums (add_interface fc x) (type_enums (it_types x))) (type_subints (it_types x)))
     else if jstr_is cls (k "namespace") then
       do ns <- parse_namespace j;
-      match fuel with
-      | O => Err Internal
-      | S f => fold_left (fun acc sub => do fc' <- acc; parse_element f (parent ++ [fst ns]) fc' sub) (snd ns) (Ok fc)
-      end
+      fold_left (fun acc sub => do fc' <- acc; rec (parent ++ [fst ns]) fc' sub) (snd ns) (Ok fc)
     else if jstr_is cls (k "system") then do x <- parse_system j parent; Ok (add_system fc x)
     else if jstr_is cls (k "subint") then do x <- parse_subint j parent; Ok (add_subints fc [x])
     else Ok fc
   | _ => Ok fc      (* non-dict elements are skipped *)
   end.
+
+(* fuel bounds the namespace nesting; process supplies jdepth ast, which always suffices *)
+Definition out_of_fuel : nstree -> file_contents -> json -> result file_contents := fun _ _ _ => Err Internal.
+
+Fixpoint parse_element (fuel : nat) : nstree -> file_contents -> json -> result file_contents :=
+  parse_element_with (match fuel with O => out_of_fuel | S f => parse_element f end).
 
 Definition process_elements (fuel : nat) (l : list json) : result file_contents :=
   fold_left (fun acc sub => do fc' <- acc; parse_element fuel [] fc' sub) l (Ok empty_fc).
